@@ -32,7 +32,11 @@ type World struct {
 	crashed bool // marks were lost in a crash restart
 	refused int
 	okData  int // accepting data ticks (empty script) since the last committed block / non-accepting data tick
-	incAt   map[int]uint64 // DA-included height the node reported right before its n-th durable write
+	// a crash may have taken the durable record of an acknowledgement with it: the restarted node then counts blocks
+	// the DA layer holds as still waiting, and is right to - it cannot know. Justified until the next accepting tick
+	// of that kind (two for data), which re-submits them.
+	lostAckH, lostAckD bool
+	incAt              map[int]uint64 // DA-included height the node reported right before its n-th durable write
 }
 
 func be(b []byte) uint64 {
@@ -141,6 +145,7 @@ func Run(c *hx.Ctx) {
 			w.da = hx.NewDA()
 			w.ts = o.I64("gt")
 			w.lastInc, w.lastHwm, w.lastDwm, w.crashed, w.refused, w.okData = 0, 0, 0, false, 0, 0
+			w.lostAckH, w.lostAckD = false, false
 			c.Emit("%s", w.start(nil, ""))
 			if !w.dead {
 				// heights below the initial height need no inclusion: the reported height starts at initialHeight-1,
@@ -214,12 +219,28 @@ func Run(c *hx.Ctx) {
 				out = "done" // a cancelled submission returns nil
 			}
 			c.Emit("%s out=%s calls=%s %s w=%s", o.Verb, out, cs, w.state(), bm.DescribeWrites(e.DS, w.from))
+			for _, sb := range w.da.Submits[n0:] {
+				// the DA layer took the blobs but its acknowledgement never reached the node: the node is right to go on
+				// counting them as waiting until a later tick gets them acknowledged
+				if strings.HasPrefix(sb.Answer, "lost") {
+					if o.Verb == "subh" {
+						w.lostAckH = true
+					} else {
+						w.lostAckD = true
+					}
+				}
+			}
 			if o.Verb == "subd" {
 				if s := o.Str("script"); s == "" || s == "-" {
 					w.okData++
+					if w.okData >= 2 {
+						w.lostAckD = false
+					}
 				} else {
 					w.okData = 0
 				}
+			} else if s := o.Str("script"); s == "" || s == "-" {
+				w.lostAckH = false
 			}
 			w.monitorSubmit(o.Verb, n0, left)
 		case "incl", "inclreal":
@@ -259,6 +280,10 @@ func Run(c *hx.Ctx) {
 					keep = w.from + k
 				}
 				w.crashed = true
+				if keep < n {
+					w.lostAckH, w.lostAckD = true, true
+					w.okData = 0
+				}
 			}
 			img := e.DS.ImageAt(keep)
 			reported := w.incAt
@@ -523,6 +548,9 @@ func (w *World) checkRefusal() {
 		return
 	}
 	nh, nd := e.M.VerifPendingCounts()
+	if (nh >= limit && w.lostAckH) || (nd >= limit && w.lostAckD) {
+		return
+	}
 	switch {
 	case ih > 1 && (nh >= limit && nh > waitH || nd >= limit && nd > waitD) && uint64(e.Height())-(ih-1) < limit:
 		c.Report("C08/refuses/initial-height-counted-as-pending", fmt.Sprintf("limit %d, waiting headers %d data %d, counters %d/%d", limit, waitH, waitD, nh, nd))
